@@ -48,6 +48,8 @@ var soilCat = map[string][]proj.Horizon{
 	"peat12":   {hz("HN", 4, 1, 0, 25), hz("HN", 8, 1, 0, 20), hz("SS", 12, 3, 0, 0.3)},
 	"peat5":    {hz("HN", 5, 1, 0, 25)},
 	"peat9":    {hz("HN", 4, 1, 0, 25), hz("SS", 9, 3, 0, 0.3)},
+	"sand8":    {hz("SL2", 3, 3, 0, 1.0), hz("SS", 8, 3, 10, 0.2)},
+	"loam7":    {hz("LS3", 3, 2, 0, 1.4), hz("LT3", 7, 4, 0, 0.4)},
 	"peat2":    {hz("HN", 2, 1, 0, 30)},
 	"expl12":   {{Tex: "SL3", Lower: 3, BD: 3, Corg: 1, CN: 10, FC: 28, WP: 12, PS: 42}, {Tex: "SL4", Lower: 12, BD: 3, Corg: 0.3, CN: 10, FC: 25, WP: 14, PS: 40}},
 	"silt20":   {hz("UU", 3, 2, 0, 1.4), hz("ULS", 9, 3, 0, 0.5), hz("SU3", 20, 3, 0, 0.1)},
